@@ -41,8 +41,10 @@ SHAPES = {
     "diff-size-older": {"src": {"files": {"c.txt": F("AAAAAA", -100)}, "doc": None}, "dst": {"files": {"c.txt": F("BB", 0)}, "doc": None}},
     "diff-size-equal": {"src": {"files": {"c.txt": F("AAAAAA", 0)}, "doc": None}, "dst": {"files": {"c.txt": F("BB", 0)}, "doc": None}},
     "diff-size-newer": {"src": {"files": {"c.txt": F("AAAAAA", 100)}, "doc": None}, "dst": {"files": {"c.txt": F("BB", 0)}, "doc": None}},
-    "diff-nested-newer": {"src": {"files": {"sub/c.txt": F("AAAAAA", 100), "sub/only.txt": F("SO"), "sub/skip.y": F("SY")}, "doc": None},
-                          "dst": {"files": {"sub/c.txt": F("BB", 0)}, "doc": None}},
+    "diff-nested-newer": {"src": {"files": {"sub/c.txt": F("AAAAAA", 100), "sub/only.txt": F("SO"), "sub/skip.y": F("SY"),
+                                            "sub/deep/new2.txt": F("N2"), "sub/deep/deeper/new3.txt": F("N3"), "sub/srconly/x.txt": F("SX")},
+                                  "doc": None},
+                          "dst": {"files": {"sub/c.txt": F("BB", 0), "sub/deep/old.txt": F("O2"), "sub/deep/deeper/old.txt": F("O3")}, "doc": None}},
     "diff-nested-samesize-equal": {"src": {"files": {"sub/c.txt": F("AAAA", 0), "sub/deeper/c.txt": F("CCCC", 0)}, "doc": None},
                                    "dst": {"files": {"sub/c.txt": F("BBBB", 0), "sub/deeper/c.txt": F("DDDD", 0)}, "doc": None}},
     "diff-nested-older": {"src": {"files": {"sub/c.txt": F("AAAAAA", -100)}, "doc": None}, "dst": {"files": {"sub/c.txt": F("BB", 0)}, "doc": None}},
@@ -173,7 +175,7 @@ def read_doc(proj_path, jid=None):
         return None
 
 
-def call(root, ids, opts, entry):
+def call(root, ids, opts, entry, projects=None):
     """Perform the sync described by opts through the given entry point. Returns outcome class string."""
     import filecmp
 
@@ -181,7 +183,8 @@ def call(root, ids, opts, entry):
     from signac import sync as ssync
 
     filecmp.clear_cache()
-    S, D = signac.Project(os.path.join(root, "src")), signac.Project(os.path.join(root, "dst"))
+    S, D = projects or (signac.Project(os.path.join(root, "src")), signac.Project(os.path.join(root, "dst")))
+    call.last_projects = (S, D)
     # arguments that have their default value are NOT passed (the defaults are part of the interface under test)
     kw = dict(recursive=opts["recursive"])
     if opts["strategy"] != "none":
@@ -294,6 +297,9 @@ def evaluate_case(case):
         with env.listing_order(opts.get("order", "sorted")):
             ids = build(root, shapes, pdoc)
             ps, pd = os.path.join(root, "src"), os.path.join(root, "dst")
+            if opts.get("dst_stray_dir"):
+                # the destination job's directory exists already, but signac did not create it (no state point file)
+                os.makedirs(os.path.join(pd, "workspace", ids[opts["job_index"]], "inputs"))
             job_level = entry in ("Job.sync", "sync_jobs")
             before_s, before_d = snap(ps), snap(pd)
             sig_s = {k: (os.stat(os.path.join(ps, k)).st_size, os.stat(os.path.join(ps, k)).st_mtime)
@@ -600,6 +606,28 @@ def evaluate_case(case):
                 if outcome2 != "ok" or again_s != after_s or again_d != after_d:
                     bad("C13", "repeat-is-not-noop", f"repeating the sync: outcome {outcome2}, destination diff "
                         f"{canon.snap_diff(after_d, again_d)[:4]}", outcome=outcome2)
+                # the SAME Project objects once more, after a job that the sync had brought over was removed from the
+                # destination through that very destination object: it has to come back complete
+                gone = [i for i in scope if "src" in SHAPES[shapes[i]]]
+                if not job_level and gone and not viol:
+                    S2, D2 = call.last_projects
+                    try:
+                        D2.open_job(id=ids[gone[0]]).remove()
+                        outcome3, _ = call(root, ids, opts, entry, projects=(S2, D2))
+                    except Exception as e:  # noqa
+                        outcome3 = f"{type(e).__name__}: {e}"
+                    ncalls += 1
+                    third_d = snap(pd)
+                    want_d = {k: v for k, v in again_d.items()}
+                    # what only the destination had in that job is gone for good; everything the source has must be back
+                    src_prefix = f"workspace/{ids[gone[0]]}"
+                    missing = [k for k, v in before_s.items() if (k == src_prefix or k.startswith(src_prefix + "/"))
+                               and not (excl and excluded(k.split("/", 2)[2]) if k.count("/") >= 2 else False)
+                               and (opts["recursive"] or True) and third_d.get(k) != v and not k.endswith(DOCF)]
+                    if outcome3 != "ok" or missing:
+                        bad("C13", "removed-job-not-restored-by-next-sync", f"after removing job {ids[gone[0]]} from the destination "
+                            f"and synchronizing again through the same Project objects: outcome {outcome3}, missing or different "
+                            f"{missing[:4]}", outcome=str(outcome3)[:40])
     return viol, outcome, ncalls, anomalies
 
 
@@ -685,6 +713,7 @@ def base_cases(tier):
                 if name == "src-new-files":
                     continue
                 yield ((name,), "none", base_opts(strategy="always", doc_sync=ds, recursive=True, job_index=0), entry)
+                yield ((name,), "none", base_opts(strategy="always", doc_sync=ds, recursive=True, job_index=0, dst_stray_dir=True), entry)
     yield from prior_cases(tier)
 
 
